@@ -313,7 +313,20 @@ func (a *Agent) SetTags(tags map[string]string) error {
 	}
 
 	// Set the tags in Serf, start gossiping out
-	return a.serf.SetTags(tags)
+	if err := a.serf.SetTags(tags); err != nil {
+		// Serf may have rejected the tags (e.g. the encoded size exceeds
+		// the limit), in which case the previous tags stay in effect. Make
+		// sure the tags file reflects the tags that are actually in effect,
+		// otherwise the next start would load tags that were never applied
+		// (or fail to start at all).
+		if a.agentConf.TagsFile != "" {
+			if werr := a.writeTagsFile(a.conf.Tags); werr != nil {
+				a.logger.Printf("[ERR] agent: %s", werr)
+			}
+		}
+		return err
+	}
+	return nil
 }
 
 // loadTagsFile will load agent tags out of a file and set them in the
